@@ -17,6 +17,8 @@
                                                                   see layer_centre_zero_lost / second_file_differs)
     "non-default surface elevations"                              surfaces_preserved
     "well tracks"                                                 wells_preserved
+    "the derived block and connection name lists are identical"   names_lists_preserved  (when rounding moves no surface
+                                                                  across a layer boundary: StableSurfaces, decidable)
     "writing the re-read geometry reproduces the first file
       byte for byte"                                              geo_write_fixpoint_partial
     "for a geometry in feet the file holds feet and the re-read
@@ -35,6 +37,7 @@
 -/
 import PyTough.Model.GeoFile
 import PyTough.Proofs.GeoFileFixpoint2
+import PyTough.Proofs.GeoFileNames
 
 namespace Props.C03
 open Py Model Model.GeoFile
@@ -151,6 +154,19 @@ theorem wells_preserved (g g' : Geo) (hwf : WF g = true) (h : Reread g g') :
     g'.wells = g.wells.map fun w => { w with pos := w.pos.map fun p =>
       (canonC 1 (scaleOf g) p.1, canonC 1 (scaleOf g) p.2.1, canonC 1 (scaleOf g) p.2.2) } := by
   rw [reread_eq hwf h]; rfl
+
+/-! ### derived name lists -/
+
+/-- **Name lists.**  `block_name_list` and `block_connection_name_list` of the re-read geometry are
+    those of the original (same names, same order, same orientation of each pair), provided
+    rounding to two decimals moves no column surface across a layer bottom or top
+    (`StableSurfaces g`: every comparison `surface > bottom`, `surface <= top` that
+    `setup_block_name_index` / `setup_block_connection_name_index` make has the same outcome before
+    and after). -/
+theorem names_lists_preserved (g g' : Geo) (hwf : WF g = true) (hst : StableSurfaces g = true) (h : Reread g g') :
+    blockNameList g' = blockNameList g ∧ blockConnectionNameList g' = blockConnectionNameList g := by
+  rw [reread_eq hwf h]
+  exact Proofs.GeoFile.names_preserved hwf hst
 
 /-! ### second generation -/
 
@@ -278,7 +294,10 @@ def gExample : Geo :=
     wells := [⟨[' ', ' ', ' ', 'W', '1'], [(r 10, r 20, r 0), (r 10, r 21, r (-255) 10)]⟩] }
 
 example : WF gExample = true ∧ LayerCentresKept gExample = true ∧ SizesStable gExample = true ∧
-    gExample.hdr.unitType = feet := by decide +kernel
+    StableSurfaces gExample = true ∧ gExample.hdr.unitType = feet := by decide +kernel
+-- (test) the name lists of the example are not trivial: 2 atmosphere + 4 underground blocks, 6 connections
+example : (blockNameList gExample).map List.length = .ok 6 ∧ (blockConnectionNameList gExample).map List.length = .ok 6 := by
+  decide +kernel
 -- (test, not proof) the theorems' conclusion evaluated on the example
 example : (write gExample).bind GeoFile.read = .ok (canonGeo gExample) := by decide +kernel
 example : nameOK 3 [' ', 'a', 'b'] = true ∧ nameOK 2 [' ', '7'] = true := by decide
